@@ -1,8 +1,8 @@
 #!/bin/sh
 # dev helper: run the project's pinned test suite (the baseline command) with a seeded change applied,
 # in a reused scratch worktree (so cargo rebuilds incrementally). usage: tools/seed_suite.sh <seed-dir>...
-WT=/tmp/seedsuite_wt
-export CARGO_TARGET_DIR=/verif/target/seedsuite CARGO_NET_OFFLINE=true
+WT=${SEEDSUITE_WT:-/tmp/seedsuite_wt}
+export CARGO_TARGET_DIR=${SEEDSUITE_TARGET:-/verif/target/seedsuite} CARGO_NET_OFFLINE=true
 [ -d $WT ] || git -C /repo worktree add -q --detach $WT HEAD || exit 2
 git -C $WT checkout -q -f --detach $(git -C /repo rev-parse HEAD) || exit 2
 for SD in "$@"; do
